@@ -19,11 +19,13 @@ from vf.quiet import quiet
 @st.composite
 def c19_case(draw):
     kind = draw(st.sampled_from(['det', 'det', 'ro', 'data']))
+    stage = {'stage_at': draw(st.integers(0, 8)), 'stage_op': draw(st.sampled_from(['primal', 'dual', 'both', 'solve', 'primal']))}
     if kind == 'det':
         c = draw(c06.c06_case())
-        return {'kind': 'det', 'det': c}
+        c['obj_first'] = draw(st.booleans())      # objective declared before or after the constraints
+        return dict(stage, kind='det', det=c)
     if kind == 'ro':
-        return {'kind': 'ro', 'ro': draw(romodel.ro_case(max_cons=3))}
+        return dict(stage, kind='ro', ro=draw(romodel.ro_case(max_cons=3)))
     n = draw(st.integers(2, 4))
     return {'kind': 'data', 'n': n, 'dtype': draw(st.sampled_from(['f8', 'f4', 'i8', 'i4'])),
             'readonly': draw(st.booleans()), 'view': draw(st.booleans()), 'sparse': draw(st.booleans()),
@@ -75,6 +77,40 @@ def build_model(case):
     return m, solver
 
 
+def build_staged(case):
+    """the same declarations, but with a formulation (primal / dual / both / a solve) squeezed in before the k-th st() call that
+    follows the objective; returns (model, triggered)"""
+    from rsome import ro, dro
+    at, op = case.get('stage_at', 0), case.get('stage_op', 'primal')
+    state = {'n': 0, 'done': False}
+    orig = {}
+
+    def wrap(cls):
+        orig[cls] = cls.st
+
+        def st_(self, *args, **kw):
+            if not state['done'] and getattr(self, 'obj', None) is not None and state['n'] >= at:
+                state['done'] = True
+                with quiet():
+                    if op in ('primal', 'both'):
+                        self.do_math()
+                    if op in ('dual', 'both'):
+                        self.do_math(primal=False)
+                    if op == 'solve':
+                        self.solve(display=False)
+            state['n'] += 1
+            return orig[cls](self, *args, **kw)
+        cls.st = st_
+    for cls in (ro.Model, dro.Model):
+        wrap(cls)
+    try:
+        m, solver = build_model(case)
+    finally:
+        for cls, f in orig.items():
+            cls.st = f
+    return m, state['done']
+
+
 def case_digests(case):
     m, _ = build_model(case)
     with quiet():
@@ -114,7 +150,7 @@ def data_model(case):
     c = arr('c', vals[n * n + n:n * n + 2 * n], (n,))
     lo = arr('lo', [-abs(v) - 1 for v in vals[n * n + 2 * n:n * n + 3 * n]], (n,))
     hi = arr('hi', [abs(v) + 1 for v in vals[n * n + 2 * n:n * n + 3 * n]], (n,))
-    Q = arr('Q', (np.array(vals[:n * n], dtype=float).reshape(n, n) @ np.array(vals[:n * n], dtype=float).reshape(n, n).T).ravel(), (n, n))
+    Q = arr('Q', (np.array(vals[:n * n], dtype=float).reshape(n, n) @ np.array(vals[:n * n], dtype=float).reshape(n, n).T + np.eye(n)).ravel(), (n, n))   # + I: definite also in float32
     w = arr('w', [1 + abs(v) for v in vals[:n]], (n,))
     m = ro.Model() if case['front'] == 'ro' else dro.Model()
     x = m.dvar(n)
@@ -156,7 +192,9 @@ class C19(Prop):
     id = 'C19'
     rule = ('(det / ro) models from the C06 and C01 generators: the model is built twice and the primal and dual standard forms must '
             'be exactly equal field by field; do_math(primal) and do_math(dual) repeated, and solve() repeated, must return equal '
-            'programs and the same answer; every field of the formula is snapshotted before solve() and compared afterwards '
+            'programs and the same answer; the same declarations made with a formulation (primal, dual, both, or a solve) squeezed in '
+            'before a later st() call must end in the same primal and dual programs (exactly equal, or - unused columns may be left '
+            'behind - both solved to the same optimum by HiGHS/ECOS); every field of the formula is snapshotted before solve() and compared afterwards '
             '(in-place edits by solver interfaces); the states of numpy.random and random must be unchanged across formulate+solve. '
             '(data) a model consuming user arrays of dtype float64/float32/int64/int32, strided views, read-only arrays and scipy '
             'sparse matrices in bounds, rows, element-wise and matrix products, quad, norm weights, uncertainty/ambiguity sets and '
@@ -216,6 +254,38 @@ class C19(Prop):
         msg = diff(d1, d2)
         if msg:
             return Outcome.fail('nondeterministic:dual', 'two builds of the same model give different dual programs: ' + msg, labels)
+        try:
+            m3, staged = build_staged(case)
+        except Exception as ex:
+            return Outcome.fail('staged:raises', 'the same declarations with an intermediate %s raise %r' % (case.get('stage_op'), ex), labels)
+        if staged:
+            labels.append('staged:' + case.get('stage_op', 'primal'))
+            with quiet():
+                fd3 = m3.do_math(primal=False)
+                fp3 = m3.do_math()
+                fd1 = m.do_math(primal=False)
+            for tag, fa, fb, sa, sb in (('primal', p1, fp3, sp1, snap(fp3)), ('dual', fd1, fd3, d1, snap(fd3))):
+                if diff(sa, sb) is None:
+                    continue
+                # an earlier formulation may leave unused columns behind or number auxiliary columns differently: the programs
+                # need not be identical then, but they have to be the same problem, so both are solved
+                labels.append('staged_form_differs:' + tag)
+                conic = bool(sa['qmat'] or sa['xmat'] or sb['qmat'] or sb['xmat'])
+                integer = any(t in 'IB' for t in sa['vtype'] + sb['vtype'])
+                if conic and integer:
+                    continue
+                from rsome import eco_solver
+                from vf.props.c08 import solve_formula
+                ra, rb = solve_formula(fa, eco_solver if conic else None), solve_formula(fb, eco_solver if conic else None)
+                oka = ra is not None and ra.x is not None and not np.isnan(ra.objval) and 'lose' not in str(ra.status)
+                okb = rb is not None and rb.x is not None and not np.isnan(rb.objval) and 'lose' not in str(rb.status)
+                if conic and not (oka and okb):
+                    continue
+                tolv = 2e-4 if conic else 1e-6
+                if oka != okb or (oka and abs(ra.objval - rb.objval) > tolv * (1 + abs(ra.objval))):
+                    return Outcome.fail('staged:' + tag, 'the same declarations with an intermediate %s before a later st() give a different %s '
+                                        'program (%s): optimum %r instead of %r' % (case.get('stage_op'), tag, diff(sa, sb),
+                                                                                    rb.objval if okb else None, ra.objval if oka else None), labels)
         with quiet():
             sp1b = snap(m.do_math())
             d1b = snap(m.do_math(primal=False))
